@@ -197,6 +197,7 @@ func runC10(t *testing.T, id string, walk c10Walk) {
 			}
 		}
 		childMut := 0
+		finalizerJustRemoved := false
 		for _, q := range sr.Requests {
 			if q.GVR == pgvr && q.Name == sc.parentName() && q.Applied && q.Post != nil {
 				cur = q.Post
@@ -219,6 +220,9 @@ func runC10(t *testing.T, id string, walk c10Walk) {
 				}
 				if preHas && !bodyHas && q.OK() && q.Applied {
 					finalizerRemovals++
+					if sim.IsDeleting(q.Pre) {
+						finalizerJustRemoved = true // (the store may have let the object go with it)
+					}
 					if hookOn && !allFinalized {
 						viol("finalizer-removed-without-finalized", fmt.Sprintf("the finalizer was removed in a sync whose hook answers did not all say finalized: true (hooks: %v)", describeHooks(sr.Hooks)), sr)
 					}
@@ -228,7 +232,7 @@ func runC10(t *testing.T, id string, walk c10Walk) {
 				childMut++
 				// (6b) ... and once this very sync has taken the finalizer off a parent that is pending
 				// deletion, that parent "has already lost the finalizer": no child is touched after that
-				if sim.IsDeleting(cur) && !hasFin(cur, finName) && hasOurs {
+				if finalizerJustRemoved {
 					viol("child-written-after-finalizer-removal", "the finalizer had just been removed from the parent pending deletion, yet a child was created, updated or deleted afterwards in the same sync: "+q.String(), sr)
 				}
 				if q.Verb == "create" && q.OK() && hookOn && !firstCreateChecked {
